@@ -699,30 +699,34 @@ Proof.
   destruct p as [|b p]; [inversion H; reflexivity|].
   destruct (split_last (b :: p)) as [[q l]|]; [|discriminate]. inversion H; subst. cbn. f_equal. apply IH. reflexivity.
 Qed.
-Lemma nget_nupd_loaded f q : (forall m, n_ch (f m) = n_ch m) -> (forall m, n_loaded (f m) = n_loaded m) ->
-  forall r p, option_map n_loaded (nget p (nupd q f r)) = option_map n_loaded (nget p r).
+Definition nsig (n : node) : bool * bool := (n_loaded n, first_dir (n_reals n)).
+Lemma nget_nupd_sig f q : (forall m, n_ch (f m) = n_ch m) -> forall r n0, nget q r = Some n0 -> nsig (f n0) = nsig n0 ->
+  forall p, option_map nsig (nget p (nupd q f r)) = option_map nsig (nget p r).
 Proof.
-  intros Hf Hl. induction q as [|c q IH]; intros r p; cbn [nupd].
-  - destruct p as [|k p]; cbn [nget option_map]; [rewrite Hl; reflexivity|]. rewrite Hf. reflexivity.
-  - destruct p as [|k p]; cbn [nget n_ch option_map n_loaded]; [reflexivity|].
+  intros Hf. induction q as [|c q IH]; intros r n0 Hg Hs p; cbn [nupd nget] in *.
+  - inversion Hg; subst n0. destruct p as [|k p]; cbn [nget option_map]; [rewrite Hs; reflexivity|]. rewrite Hf. reflexivity.
+  - destruct (afind c (n_ch r)) as [y|] eqn:Ec; [|discriminate].
+    destruct p as [|k p]; cbn [nget n_ch option_map]; [reflexivity|].
     destruct (String.eqb c k) eqn:E.
-    + apply String.eqb_eq in E; subst k. rewrite afind_amap. destruct (afind c (n_ch r)); cbn [option_map]; [apply IH|reflexivity].
+    + apply String.eqb_eq in E; subst k. rewrite afind_amap, Ec. cbn [option_map]. apply (IH y n0); assumption.
     + rewrite (afind_amap_other _ _ _ _ E). reflexivity.
 Qed.
-(* same paths in the cache, same loaded flags *)
+(* same paths in the cache, same loaded flags, same kind of first backing inode *)
 Definition same_paths (s s' : state) : Prop :=
-  forall p, option_map n_loaded (nget p (root s')) = option_map n_loaded (nget p (root s)).
+  forall p, option_map nsig (nget p (root s')) = option_map nsig (nget p (root s)).
 Lemma same_paths_refl s : same_paths s s. Proof. intros p; reflexivity. Qed.
 Lemma same_paths_trans a b c : same_paths a b -> same_paths b c -> same_paths a c.
 Proof. intros H1 H2 p. rewrite (H2 p). apply H1. Qed.
 Lemma same_paths_some s s' p n : same_paths s s' -> nget p (root s) = Some n ->
-  exists n', nget p (root s') = Some n' /\ n_loaded n' = n_loaded n.
+  exists n', nget p (root s') = Some n' /\ nsig n' = nsig n.
 Proof.
-  intros H Hn. specialize (H p). rewrite Hn in H. destruct (nget p (root s')) as [n'|]; cbn in H; [|discriminate].
-  inversion H. eauto.
+  intros H Hn. specialize (H p). rewrite Hn in H. destruct (nget p (root s')) as [n'|]; cbn [option_map] in H; [|discriminate].
+  exists n'. split; [reflexivity|]. congruence.
 Qed.
+Lemma same_paths_none s s' p : same_paths s s' -> nget p (root s) = None -> nget p (root s') = None.
+Proof. intros H Hn. specialize (H p). rewrite Hn in H. destruct (nget p (root s')); [discriminate|reflexivity]. Qed.
 
-Lemma nget_child pp nm r pn c : nget pp r = Some pn -> nget (pp ++ [nm]) r = Some c -> afind nm (n_ch pn) = Some c.
+Lemma nget_child (pp : path) (nm : name) r pn c : nget pp r = Some pn -> nget (pp ++ [nm]) r = Some c -> afind nm (n_ch pn) = Some c.
 Proof.
   revert r. induction pp as [|a pp IH]; intros r Hp Hc; cbn [nget app] in *.
   - inversion Hp; subst. destruct (afind nm (n_ch pn)); [exact Hc|discriminate].
@@ -738,32 +742,47 @@ Proof.
 Qed.
 
 Definition upper_at' (p : path) (s : state) : Prop := forall n', nget p (root s) = Some n' -> in_upper n' = true.
+Lemma nget_nupd_frame f q : (forall m, n_ch (f m) = n_ch m) -> forall r q', ~ is_prefix q' q -> nget q' (nupd q f r) = nget q' r.
+Proof.
+  intros Hf. induction q as [|c q IH]; intros r q' Hn; cbn [nupd].
+  - destruct q' as [|k p']; [exfalso; apply Hn; apply is_prefix_refl|]. cbn [nget]. rewrite Hf. reflexivity.
+  - destruct q' as [|k p']; [exfalso; apply Hn; exists (c :: q); reflexivity|]. cbn [nget n_ch].
+    destruct (String.eqb c k) eqn:E.
+    + apply String.eqb_eq in E; subst k. rewrite afind_amap. destruct (afind c (n_ch r)); cbn [option_map]; [|reflexivity].
+      apply IH. intros Hp. apply Hn. apply is_prefix_cons. split; [reflexivity|exact Hp].
+    + rewrite (afind_amap_other _ _ _ _ E). reflexivity.
+Qed.
+(* nodes that are not on the way to p are untouched *)
+Definition cache_frame (p : path) (s s' : state) : Prop := forall q, ~ is_prefix q p -> nget q (root s') = nget q (root s).
 Lemma cud_coherent fuel : forall p s r s', Coherent s -> create_upper_dir fuel p s = (r, s') ->
-  Coherent s' /\ same_paths s s' /\ (r = Ok tt -> upper_at' p s').
+  Coherent s' /\ same_paths s s' /\ lowers s' = lowers s /\ cache_frame p s s' /\ (r = Ok tt -> upper_at' p s').
 Proof.
   induction fuel as [|f IH]; intros p s r s' HC Hrun; cbn [create_upper_dir] in Hrun.
-  { inversion Hrun; subst. split; [exact HC|]. split; [apply same_paths_refl|discriminate]. }
-  assert (Keep : forall e, (Err e, s) = (r, s') -> Coherent s' /\ same_paths s s' /\ (r = Ok tt -> upper_at' p s')).
-  { intros e H. inversion H; subst. split; [exact HC|]. split; [apply same_paths_refl|discriminate]. }
+  { inversion Hrun; subst. split; [exact HC|]. split; [apply same_paths_refl|]. split; [reflexivity|]. split; [intros q0 _; reflexivity|discriminate]. }
+  assert (Keep : forall e, (Err e, s) = (r, s') -> Coherent s' /\ same_paths s s' /\ lowers s' = lowers s /\ cache_frame p s s' /\ (r = Ok tt -> upper_at' p s')).
+  { intros e H. inversion H; subst. split; [exact HC|]. split; [apply same_paths_refl|]. split; [reflexivity|]. split; [intros q0 _; reflexivity|discriminate]. }
   unfold bind at 1 in Hrun. unfold get_node at 1 in Hrun. destruct (nget p (root s)) as [n|] eqn:Hg; [|exact (Keep _ Hrun)].
   unfold bind at 1 in Hrun. unfold stat_node in Hrun. destruct (node_stat s n) as [st|] eqn:Hst; [|exact (Keep _ Hrun)].
   destruct (is_dirT st) eqn:Edir; cbn [negb] in Hrun; [|exact (Keep _ Hrun)].
   destruct (in_upper n) eqn:Eup.
-  { inversion Hrun; subst. split; [exact HC|]. split; [apply same_paths_refl|]. intros _ n' Hn'. rewrite Hg in Hn'. inversion Hn'; subst. exact Eup. }
+  { inversion Hrun; subst. split; [exact HC|]. split; [apply same_paths_refl|]. split; [reflexivity|]. split; [intros q0 _; reflexivity|]. intros _ n' Hn'. rewrite Hg in Hn'. inversion Hn'; subst. exact Eup. }
   destruct (split_last p) as [[pp nm]|] eqn:Esp; [|exact (Keep _ Hrun)].
   pose proof (split_last_spec _ _ _ Esp) as Hp. subst p.
   unfold bind at 1 in Hrun. unfold get_node at 1 in Hrun. destruct (nget pp (root s)) as [pn|] eqn:Hgp; [|exact (Keep _ Hrun)].
   unfold bind at 1 in Hrun.
   destruct ((if in_upper pn then ret tt else create_upper_dir f pp) s) as [[[]|e] s1] eqn:E1.
   2:{ inversion Hrun; subst. destruct (in_upper pn); [inversion E1|].
-      destruct (IH pp s _ _ HC E1) as (A & B & _). split; [exact A|]. split; [exact B|discriminate]. }
-  assert (H1 : Coherent s1 /\ same_paths s s1 /\ upper_at' pp s1).
+      destruct (IH pp s _ _ HC E1) as (A & B & L & Fr & _). split; [exact A|]. split; [exact B|]. split; [exact L|]. split; [|discriminate].
+      intros q0 Hq0. apply Fr. intros Hpre. apply Hq0. eapply is_prefix_trans; [exact Hpre|apply is_prefix_app]. }
+  assert (H1 : Coherent s1 /\ same_paths s s1 /\ lowers s1 = lowers s /\ cache_frame pp s s1 /\ upper_at' pp s1).
   { destruct (in_upper pn) eqn:Epu.
-    - inversion E1; subst s1. split; [exact HC|]. split; [apply same_paths_refl|]. intros n' Hn'. rewrite Hgp in Hn'. inversion Hn'; subst. exact Epu.
-    - destruct (IH pp s _ _ HC E1) as (A & B & C). split; [exact A|]. split; [exact B|]. apply C. reflexivity. }
-  destruct H1 as (HC1 & SP1 & Hup1).
-  assert (Keep1 : forall e, (Err e, s1) = (r, s') -> Coherent s' /\ same_paths s s' /\ (r = Ok tt -> upper_at' (pp ++ [nm]) s')).
-  { intros e H. inversion H; subst. split; [exact HC1|]. split; [exact SP1|discriminate]. }
+    - inversion E1; subst s1. split; [exact HC|]. split; [apply same_paths_refl|]. split; [reflexivity|]. split; [intros q0 _; reflexivity|]. intros n' Hn'. rewrite Hgp in Hn'. inversion Hn'; subst. exact Epu.
+    - destruct (IH pp s _ _ HC E1) as (A & B & L & Fr & C). split; [exact A|]. split; [exact B|]. split; [exact L|]. split; [exact Fr|]. apply C. reflexivity. }
+  destruct H1 as (HC1 & SP1 & Hlo1 & Fr1 & Hup1).
+  assert (Fr1' : cache_frame (pp ++ [nm]) s s1).
+  { intros q0 Hq0. apply Fr1. intros Hpre. apply Hq0. eapply is_prefix_trans; [exact Hpre|apply is_prefix_app]. }
+  assert (Keep1 : forall e, (Err e, s1) = (r, s') -> Coherent s' /\ same_paths s s' /\ lowers s' = lowers s /\ cache_frame (pp ++ [nm]) s s' /\ (r = Ok tt -> upper_at' (pp ++ [nm]) s')).
+  { intros e H. inversion H; subst. split; [exact HC1|]. split; [exact SP1|]. split; [exact Hlo1|]. split; [exact Fr1'|discriminate]. }
   unfold bind at 1 in Hrun. unfold get_node at 1 in Hrun. destruct (nget pp (root s1)) as [pn'|] eqn:Hgp1; [|exact (Keep1 _ Hrun)].
   pose proof (Hup1 pn' Hgp1) as Hpu.
   pose proof HC1 as (Hu1 & Hw1 & HCT1). pose proof (HCT1 pp pn' Hgp1) as Npn.
@@ -781,16 +800,22 @@ Proof.
   rewrite Hpp in *.
   unfold h_mkdir, h_insert in Hmk. destruct (tget U pp) as [[m x ch| | |]|] eqn:Etg; try discriminate.
   destruct (afind nm ch) eqn:Enm; [discriminate|]. inversion Hmk; subst U1; clear Hmk.
-  destruct (same_paths_some s s1 _ _ SP1 Hg) as (n1 & Hn1 & _).
+  destruct (same_paths_some s s1 _ _ SP1 Hg) as (n1 & Hn1 & Hsig1).
   pose proof (nget_child pp nm (root s1) pn' n1 Hgp1 Hn1) as Hchild.
+  assert (Hfd1 : first_dir (n_reals n1) = true).
+  { unfold nsig in Hsig1. inversion Hsig1 as [[A B]]. rewrite B. destruct HC as (_ & _ & HCT).
+    destruct (first_good_stat s _ _ n (HCT _ _ Hg)) as (r0 & rs0 & t0 & Er0 & _ & Hs0 & _ & Hd0 & _).
+    rewrite Hst in Hs0. inversion Hs0; subst t0. rewrite Er0. cbn. rewrite Hd0. exact Edir. }
   assert (Hld : n_loaded pn' = true).
   { destruct (n_loaded pn') eqn:El; [reflexivity|]. rewrite (ok_unl _ _ _ _ Npn El) in Hchild. discriminate. }
   unfold mod_node in Hrun. inversion Hrun; subst r s'; clear Hrun.
-  split; [|split].
+  split; [|split; [|split; [|split]]].
   - apply (dirup_block s1 _ U pp nm (N.land (mode_of st) 1023) pn' n1 rest m x ch); auto.
     cbn [root]. rewrite Hroot2. reflexivity.
   - apply (same_paths_trans s s1 _); [exact SP1|]. intros p'. cbn [root]. rewrite Hroot2.
-    apply nget_nupd_loaded; intros m0; reflexivity.
+    apply nget_nupd_sig with (n0 := n1); [intros m0; reflexivity|exact Hn1|]. unfold nsig, add_upper; cbn. rewrite Hfd1. reflexivity.
+  - cbn [lowers]. congruence.
+  - intros q0 Hq0. cbn [root]. rewrite Hroot2, (nget_nupd_frame _ (pp ++ [nm])); [apply Fr1'; exact Hq0|intros m0; reflexivity|exact Hq0].
   - intros _ n' Hn'. cbn [root] in Hn'. rewrite nget_nupd in Hn'. destruct (nget (pp ++ [nm]) (root s2)); cbn [option_map] in Hn'; [|discriminate].
     inversion Hn'; subst. reflexivity.
 Qed.
@@ -808,17 +833,917 @@ Proof.
 Qed.
 Lemma wf_tmap_ino i f : file_to_file f -> forall t, wf t -> wf (tmap_ino i f t).
 Proof.
-  intros Hf. fix IH 2. intros t Hw. destruct Hw as [m x ch Hn Hall| | |]; cbn [tmap_ino]; try constructor.
-  - rewrite map_map. cbn [fst]. exact Hn.
-  - induction Hall as [|kv l H1 H2 IHl]; cbn [map]; constructor; [cbn [snd]; apply IH; exact H1|exact IHl].
-  - destruct (i =? i0)%N; [|constructor]. destruct (Hf i0 m d x) as (j' & m' & d' & x' & ->). constructor.
+  intros Hf. fix IH 2. intros t Hw. destruct Hw as [m x ch Hn Hall|j m d x|tg|]; cbn [tmap_ino].
+  - constructor; [rewrite map_map; cbn [fst]; exact Hn|].
+    clear Hn. revert ch Hall.
+    refine (fix go (l : list (name * tree)) (H : Forall (fun kv => wf (snd kv)) l) {struct H} :
+              Forall (fun kv => wf (snd kv)) (map (fun kv => (fst kv, tmap_ino i f (snd kv))) l) :=
+              match H in Forall _ l0 return Forall (fun kv => wf (snd kv)) (map (fun kv => (fst kv, tmap_ino i f (snd kv))) l0) with
+              | Forall_nil _ => Forall_nil _
+              | @Forall_cons _ _ a l' h t => @Forall_cons _ (fun kv => wf (snd kv)) (fst a, tmap_ino i f (snd a)) _ (IH (snd a) h) (go l' t)
+              end).
+  - destruct (i =? j)%N; [|constructor]. destruct (Hf j m d x) as (j' & m' & d' & x' & ->). constructor.
+  - constructor.
+  - constructor.
+Qed.
+Lemma CohT_pointwise Sh Sh' nl : (forall i p, Sh' i p = Sh i p) -> forall p n, CohT Sh nl p n -> CohT Sh' nl p n.
+Proof.
+  intros H p n HC q m Hm. apply (NodeOK_ext Sh Sh' nl); [intros i p' _; apply H|intros i k; apply H|apply HC; exact Hm].
 Qed.
 Lemma coherent_shape_eq s s' :
   (forall i p, shp s' i p = shp s i p) -> root s' = root s -> List.length (lowers s') = List.length (lowers s) ->
   wf_layers s' -> (exists u, upper s' = Some u) -> Coherent s -> Coherent s'.
 Proof.
   intros Hs Hr Hl Hw Hu (_ & _ & HC). split; [exact Hu|]. split; [exact Hw|]. rewrite Hr, Hl.
-  assert (E : shp s' = shp s).
-  { apply FunctionalExtensionality.functional_extensionality. intros i. apply FunctionalExtensionality.functional_extensionality. apply Hs. }
-  rewrite E. exact HC.
+  apply (CohT_pointwise (shp s) (shp s')); [exact Hs|exact HC].
+Qed.
+
+(* ------------------------------------------------------------------ block: a lower-only file / symlink gets its upper copy *)
+Lemma unloaded_nondir s p n t : NodeOK (shp s) (List.length (lowers s)) p n -> node_stat s n = Some t -> is_dirT t = false ->
+  n_loaded n = false /\ n_ch n = [].
+Proof.
+  intros N Hst Hd. destruct (first_good_stat s _ p n N) as (r & rs & t' & Er & _ & Hst' & _ & Hdir & _).
+  rewrite Hst in Hst'. inversion Hst'; subst t'.
+  destruct (n_loaded n) eqn:El; [|split; [reflexivity|apply (ok_unl _ _ _ _ N El)]].
+  destruct (ok_ld _ _ _ _ N El) as (_ & B & _). rewrite Er in B. cbn in B. congruence.
+Qed.
+Lemma leafup_block s s' U (pp : path) (nm : name) c pn n1 rest m x ch t1 :
+  Coherent s ->
+  upper s = Some U -> tget U pp = Some (Dir m x ch) -> afind nm ch = None ->
+  (is_dirT c = false /\ is_whT c = false /\ wf c) ->
+  upper s' = Some (tupd pp (chmap (aset nm c)) U) -> lowers s' = lowers s ->
+  nget pp (root s) = Some pn -> n_loaded pn = true -> afind nm (n_ch pn) = Some n1 ->
+  node_stat s n1 = Some t1 -> is_dirT t1 = false ->
+  lstack (shp s) (List.length (lowers s)) pp = 0%nat :: rest ->
+  root s' = nupd (pp ++ [nm]) (add_upper (mkReal 0 true (pp ++ [nm]) false false false) true) (root s) ->
+  Coherent s'.
+Proof.
+  intros HC Hu Hd Hnone (Hc1 & Hc2 & Hc3) Hu' Hl Hget Hld Hold Hst1 Hnd Hstk Hroot.
+  pose proof HC as (_ & Hw & HCT).
+  assert (Nn1 : NodeOK (shp s) (List.length (lowers s)) (pp ++ [nm]) n1).
+  { apply (HCT (pp ++ [nm]) n1). clear -Hget Hold. revert Hget. generalize (root s). induction pp as [|a pp IH]; intros r Hg; cbn [nget app] in *.
+    - inversion Hg; subst. rewrite Hold. reflexivity.
+    - destruct (afind a (n_ch r)); [apply IH; exact Hg|discriminate]. }
+  destruct (unloaded_nondir s _ n1 t1 Nn1 Hst1 Hnd) as [Hul Hnc].
+  apply (leaf_block s s' U pp nm (aset nm c) c pn rest m x ch (mkReal 0 true (pp ++ [nm]) false false false)); auto.
+  - intros k Hk. rewrite afind_aset. apply String.eqb_neq in Hk. rewrite Hk. reflexivity.
+  - rewrite afind_aset, String.eqb_refl. reflexivity.
+  - intros k r. destruct c; try discriminate; reflexivity.
+  - apply (wf_layers_set_upper s s' _ Hw Hu' Hl). apply layer_ok_tupd.
+    + intros d Hdw. apply wf_chmap_aset; assumption.
+    + intros d Hdd. destruct d; try discriminate. reflexivity.
+    + apply (Hw 0%nat U). cbn. exact Hu.
+  - cbn [r_layer r_upper r_path r_wh r_dir r_opq]. repeat split; auto. discriminate.
+  - eexists. split; [rewrite Hroot; apply nupd_app|]. cbn [n_reals n_wh n_loaded n_ch].
+    pose proof (HCT pp pn Hget) as Npn.
+    repeat split; auto.
+    + rewrite keys_amap. apply Npn.
+    + rewrite afind_amap, Hold. cbn [option_map]. unfold add_upper. cbn [r_wh]. rewrite Hul, Hnc. reflexivity.
+    + intros k Hk. apply String.eqb_neq in Hk. rewrite String.eqb_sym in Hk. apply (afind_amap_other _ _ _ _ Hk).
+Qed.
+
+
+(* ------------------------------------------------------------------ copy_node_up keeps the state coherent *)
+Lemma parent_step s pn (HC : Coherent s) (pp : path) (nm : name) :
+  nget pp (root s) = Some pn -> forall r1 s1,
+  (if in_upper pn then ret tt else create_upper_dir (S (List.length pp)) pp) s = (r1, s1) ->
+  Coherent s1 /\ same_paths s s1 /\ lowers s1 = lowers s /\ cache_frame pp s s1 /\ (r1 = Ok tt -> upper_at' pp s1).
+Proof.
+  intros Hgp r1 s1 E1. destruct (in_upper pn) eqn:Epu.
+  - inversion E1; subst. split; [exact HC|]. split; [apply same_paths_refl|]. split; [reflexivity|]. split; [intros q _; reflexivity|].
+    intros _ n' Hn'. rewrite Hgp in Hn'. inversion Hn'; subst. exact Epu.
+  - destruct (cud_coherent _ pp s r1 s1 HC E1) as (A & B & C & D & F).
+    split; [exact A|]. split; [exact B|]. split; [exact C|]. split; [exact D|exact F].
+Qed.
+Lemma not_prefix_snoc (pp : path) (nm : name) : ~ is_prefix (pp ++ [nm]) pp.
+Proof. apply not_prefix_longer. rewrite app_length. cbn. lia. Qed.
+
+Lemma cnu_leaf_tail s1 (pp : path) (nm : name) c n1 t1 pn' pr prs U U1 s' :
+  Coherent s1 -> nget pp (root s1) = Some pn' -> n_reals pn' = pr :: prs -> r_upper pr = true ->
+  nget (pp ++ [nm]) (root s1) = Some n1 -> node_stat s1 n1 = Some t1 -> is_dirT t1 = false ->
+  (is_dirT c = false /\ is_whT c = false /\ wf c) ->
+  upper s1 = Some U -> h_insert pp nm c U = Ok U1 ->
+  upper s' = Some U1 -> lowers s' = lowers s1 ->
+  root s' = nupd (pp ++ [nm]) (add_upper (mkReal 0 true (pp ++ [nm]) false false false) true) (root s1) ->
+  Coherent s'.
+Proof.
+  intros HC1 Hgp1 Epr Hpu Hn1 Hst1 Hnd Hc HU Hins HU' Hl' Hroot.
+  pose proof HC1 as (_ & _ & HCT1). pose proof (HCT1 pp pn' Hgp1) as Npn.
+  destruct (first_upper_stack s1 pp pn' pr prs Npn Epr Hpu) as (Hl0 & Hpp & rest & Hstk).
+  unfold h_insert in Hins. destruct (tget U pp) as [[m x ch| | |]|] eqn:Etg; try discriminate.
+  destruct (afind nm ch) eqn:Enm; [discriminate|]. inversion Hins; subst U1; clear Hins.
+  pose proof (nget_child pp nm (root s1) pn' n1 Hgp1 Hn1) as Hchild.
+  assert (Hld : n_loaded pn' = true).
+  { destruct (n_loaded pn') eqn:El; [reflexivity|]. rewrite (ok_unl _ _ _ _ Npn El) in Hchild. discriminate. }
+  apply (leafup_block s1 s' U pp nm c pn' n1 rest m x ch t1); auto.
+Qed.
+
+Lemma coherent_same_disk s s' : upper s' = upper s -> lowers s' = lowers s -> root s' = root s -> Coherent s -> Coherent s'.
+Proof.
+  intros A B C HC. pose proof HC as (Hu & Hw & _). apply (coherent_shape_eq s s'); auto.
+  - intros i q. unfold shp, ent, get_layer. rewrite A, B. reflexivity.
+  - rewrite B. reflexivity.
+  - intros i t Hg. apply (Hw i t). unfold get_layer in *. rewrite <- A, <- B. exact Hg.
+  - rewrite A. exact Hu.
+Qed.
+
+Lemma cnu_coherent p s r s' : Coherent s -> (forall n, nget p (root s) = Some n -> n_wh n = false) ->
+  copy_node_up p s = (r, s') ->
+  Coherent s' /\ same_paths s s' /\ lowers s' = lowers s /\ cache_frame p s s' /\ (r = Ok tt -> upper_at' p s').
+Proof.
+  intros HC Hnw Hrun. unfold copy_node_up in Hrun.
+  assert (Keep : forall e, (Err e, s) = (r, s') ->
+            Coherent s' /\ same_paths s s' /\ lowers s' = lowers s /\ cache_frame p s s' /\ (r = Ok tt -> upper_at' p s')).
+  { intros e H. inversion H; subst. split; [exact HC|]. split; [apply same_paths_refl|]. split; [reflexivity|]. split; [intros q _; reflexivity|discriminate]. }
+  unfold bind at 1 in Hrun. unfold get_node at 1 in Hrun. destruct (nget p (root s)) as [n|] eqn:Hg; [|exact (Keep _ Hrun)].
+  destruct (in_upper n) eqn:Eup.
+  { inversion Hrun; subst. split; [exact HC|]. split; [apply same_paths_refl|]. split; [reflexivity|]. split; [intros q _; reflexivity|].
+    intros _ n' Hn'. rewrite Hg in Hn'. inversion Hn'; subst. exact Eup. }
+  unfold bind at 1 in Hrun. unfold stat_node in Hrun. destruct (node_stat s n) as [st|] eqn:Hst; [|exact (Keep _ Hrun)].
+  pose proof HC as (Hu0 & Hw0 & HCT). pose proof (HCT p n Hg) as Nn.
+  destruct (first_good_stat s _ p n Nn) as (lr & lrs & t0 & Elr & Et0 & Hst0 & Hw0' & Hd0 & Hp0).
+  rewrite Hst in Hst0. inversion Hst0; subst t0; clear Hst0.
+  assert (Hnotwh : is_whT st = false).
+  { rewrite <- Hw0'. pose proof (ok_wh _ _ _ _ Nn) as W. rewrite Elr in W. cbn in W. rewrite <- W. apply Hnw. reflexivity. }
+  assert (Hlrlow : r_layer lr <> 0%nat).
+  { pose proof (ok_reals _ _ _ _ Nn) as G. rewrite Elr in G. inversion G as [|? ? (_ & Hup & _) _]; subst.
+    unfold in_upper in Eup. rewrite Elr in Eup. rewrite Eup in Hup. intros H0. rewrite H0 in Hup. discriminate. }
+  (* common part of the two leaf cases: make the parent upper *)
+  assert (Leaf : forall (c : tree) (body : real -> M unit),
+     (is_dirT st = false) -> (is_dirT c = false /\ is_whT c = false /\ wf c) ->
+     forall pp nm, p = pp ++ [nm] -> forall pn, nget pp (root s) = Some pn ->
+     forall r1 s1, (if in_upper pn then ret tt else create_upper_dir (S (List.length pp)) pp) s = (r1, s1) ->
+     Coherent s1 /\ same_paths s s1 /\ lowers s1 = lowers s /\ cache_frame p s s1 /\ (r1 = Ok tt -> upper_at' pp s1) /\
+     nget p (root s1) = Some n /\ node_stat s1 n = Some st /\ real_tree s1 lr = Some st).
+  { intros c body Hnd Hc pp nm -> pn Hgp r1 s1 E1.
+    destruct (parent_step s pn HC pp nm Hgp r1 s1 E1) as (A & B & C & D & F).
+    split; [exact A|]. split; [exact B|]. split; [exact C|]. split; [|split; [exact F|]].
+    { intros q Hq. apply D. intros Hpre. apply Hq. eapply is_prefix_trans; [exact Hpre|apply is_prefix_app]. }
+    split; [|split].
+    - rewrite (D (pp ++ [nm])); [exact Hg|apply not_prefix_snoc].
+    - unfold node_stat. rewrite Elr. cbn [map first_some]. rewrite (lower_real_tree s s1 lr Hlrlow C), real_tree_ent, Hp0, Et0. reflexivity.
+    - rewrite (lower_real_tree s s1 lr Hlrlow C), real_tree_ent, Hp0. exact Et0. }
+  destruct st as [md xd chd|fi fm fd fx|tg|]; [| | |discriminate].
+  - destruct (cud_coherent _ p s r s' HC Hrun) as (A & B & C & D & F).
+    split; [exact A|]. split; [exact B|]. split; [exact C|]. split; [exact D|exact F].
+  - (* regular file *)
+    unfold copy_regfile_up in Hrun. unfold bind at 1 in Hrun. unfold get_node at 1 in Hrun. rewrite Hg, Eup in Hrun.
+    destruct (split_last p) as [[pp nm]|] eqn:Esp; [|exact (Keep _ Hrun)].
+    pose proof (split_last_spec _ _ _ Esp) as Hp. rewrite Hp in *.
+    unfold bind at 1 in Hrun. unfold stat_node in Hrun. rewrite Hst in Hrun.
+    unfold bind at 1 in Hrun. unfold first_real in Hrun. rewrite Elr in Hrun. cbn [ret] in Hrun.
+    unfold bind at 1 in Hrun. unfold get_node at 1 in Hrun. destruct (nget pp (root s)) as [pn|] eqn:Hgp; [|exact (Keep _ Hrun)].
+    unfold bind at 1 in Hrun.
+    destruct ((if in_upper pn then ret tt else create_upper_dir (S (List.length pp)) pp) s) as [r1 s1] eqn:E1.
+    set (c := File (next_ino s1) (N.land fm 4095) fd []).
+    destruct (Leaf c (fun _ => ret tt) eq_refl (conj eq_refl (conj eq_refl (wf_file _ _ _ _))) pp nm eq_refl pn Hgp r1 s1 E1)
+      as (HC1 & SP1 & Hlo1 & Fr1 & Hup1 & Hn1 & Hst1 & Hrt1).
+    assert (Keep1 : forall e, (Err e, s1) = (r, s') ->
+              Coherent s' /\ same_paths s s' /\ lowers s' = lowers s /\ cache_frame (pp ++ [nm]) s s' /\ (r = Ok tt -> upper_at' (pp ++ [nm]) s')).
+    { intros e H. inversion H; subst. split; [exact HC1|]. split; [exact SP1|]. split; [exact Hlo1|]. split; [exact Fr1|discriminate]. }
+    destruct r1 as [[]|e1]; [|exact (Keep1 _ Hrun)]. specialize (Hup1 eq_refl).
+    unfold bind at 1 in Hrun. unfold get_node at 1 in Hrun. destruct (nget pp (root s1)) as [pn'|] eqn:Hgp1; [|exact (Keep1 _ Hrun)].
+    pose proof (Hup1 pn' Hgp1) as Hpu. unfold in_upper in Hpu.
+    unfold bind at 1 in Hrun. unfold upper_real in Hrun.
+    destruct (n_reals pn') as [|pr prs] eqn:Epr; [discriminate|]. rewrite Hpu in Hrun. cbn [ret] in Hrun.
+    pose proof HC1 as (_ & Hw1 & HCT1). pose proof (HCT1 pp pn' Hgp1) as Npn.
+    destruct (first_upper_stack s1 pp pn' pr prs Npn Epr Hpu) as (Hl0 & Hpp & rest & Hstk).
+    unfold bind at 1 in Hrun.
+    destruct (ri_create pr nm (mode_of (File fi fm fd fx)) s1) as [[ri|e] s2] eqn:Ec.
+    2:{ inversion Hrun; subst r s'.
+        assert (Hs2 : upper s2 = upper s1 /\ lowers s2 = lowers s1 /\ root s2 = root s1).
+        { unfold ri_create, ri_guard in Ec. rewrite Hpu in Ec. unfold bind at 1 in Ec. cbn [ret] in Ec. unfold bind at 1 in Ec.
+          unfold fresh_ino in Ec. unfold bind at 1 in Ec. unfold mutate in Ec. rewrite Hl0 in Ec. cbn [get_layer upper] in Ec.
+          destruct (upper s1) as [u1|]; [|inversion Ec; auto].
+          destruct (h_create (r_path pr) nm (next_ino s1) (mode_of (File fi fm fd fx)) u1); inversion Ec; auto. }
+        destruct Hs2 as (A & B & C).
+        split; [exact (coherent_same_disk s1 s2 A B C HC1)|]. split; [intros q; rewrite C; apply SP1|]. split; [congruence|].
+        split; [intros q Hq; rewrite C; apply Fr1; exact Hq|discriminate]. }
+    destruct (ri_create_spec _ _ _ _ _ _ Hpu Hl0 Ec) as (U & U1 & HU & Hcr & -> & HU2 & Hlow2 & Hroot2).
+    rewrite Hpp in *. cbn [mode_of r_layer r_path] in *.
+    unfold bind at 1 in Hrun.
+    assert (Hrd : real_tree s2 lr = Some (File fi fm fd fx)).
+    { rewrite (lower_real_tree s1 s2 lr Hlrlow Hlow2). exact Hrt1. }
+    rewrite Hrd in Hrun. unfold bind at 1 in Hrun.
+    pose proof (h_insert_get _ _ _ _ _ Hcr) as Hget1.
+    destruct (mutate 0 (h_setdata (pp ++ [nm]) (fun _ => fd)) s2) as [[[]|e] s3] eqn:Em.
+    2:{ exfalso. unfold mutate in Em. cbn [get_layer] in Em. rewrite HU2 in Em. unfold h_setdata in Em. rewrite Hget1 in Em. discriminate. }
+    destruct (mutate0_spec _ _ _ Em) as (U1' & U2 & HU2' & Hsd & HU3 & Hlow3 & Hroot3).
+    rewrite HU2 in HU2'. inversion HU2'; subst U1'; clear HU2'.
+    unfold h_setdata in Hsd. rewrite Hget1 in Hsd. inversion Hsd; subst U2; clear Hsd.
+    unfold mod_node in Hrun. inversion Hrun; subst r s'; clear Hrun.
+    (* first the state with the empty upper file, then the content *)
+    set (ri := mkReal 0 true (pp ++ [nm]) false false false).
+    set (smid := mkState (Some U1) (lowers s1) (nupd (pp ++ [nm]) (add_upper ri true) (root s1)) (next_ino s3) (log s3)).
+    assert (Hmid : Coherent smid).
+    { apply (cnu_leaf_tail s1 pp nm (File (next_ino s1) (N.land fm 4095) [] []) n (File fi fm fd fx) pn' pr prs U U1 smid); auto.
+      repeat split; constructor. }
+    split; [|split; [|split; [|split]]].
+    + apply (coherent_shape_eq smid); cbn [upper lowers root].
+      * intros i q. destruct i as [|j]; unfold shp, ent; cbn [get_layer upper lowers]; [|rewrite Hlow3, Hlow2; reflexivity].
+        rewrite HU3. apply sh_tmap_ino. intros j m d x. cbn [set_data]. eauto.
+      * rewrite Hroot3, Hroot2. reflexivity.
+      * rewrite Hlow3, Hlow2. reflexivity.
+      * apply (wf_layers_set_upper smid _ (tmap_ino (next_ino s1) (set_data (fun _ => fd)) U1) (proj1 (proj2 Hmid))); cbn [upper lowers]; [exact HU3|rewrite Hlow3, Hlow2; reflexivity|].
+        destruct (proj1 (proj2 Hmid) 0%nat U1 eq_refl) as [W D]. split; [apply wf_tmap_ino; [|exact W]|].
+        -- intros j m d x. cbn [set_data]. eauto.
+        -- destruct U1; try discriminate. reflexivity.
+      * rewrite HU3. eauto.
+      * exact Hmid.
+    + apply (same_paths_trans s s1 _); [exact SP1|]. intros q. cbn [root]. rewrite Hroot3, Hroot2.
+      apply nget_nupd_sig with (n0 := n); [intros m0; reflexivity|exact Hn1|]. unfold nsig, add_upper; cbn. rewrite Elr. cbn. rewrite Hd0. reflexivity.
+    + cbn [lowers]. congruence.
+    + intros q Hq. cbn [root]. rewrite Hroot3, Hroot2, (nget_nupd_frame _ (pp ++ [nm])); [apply Fr1; exact Hq|intros m0; reflexivity|exact Hq].
+    + intros _ n' Hn'. cbn [root] in Hn'. rewrite nget_nupd in Hn'. destruct (nget (pp ++ [nm]) (root s3)); cbn [option_map] in Hn'; [|discriminate].
+      inversion Hn'; subst. reflexivity.
+  - (* symbolic link *)
+    unfold copy_symlink_up in Hrun. unfold bind at 1 in Hrun. unfold get_node at 1 in Hrun. rewrite Hg, Eup in Hrun.
+    destruct (split_last p) as [[pp nm]|] eqn:Esp; [|exact (Keep _ Hrun)].
+    pose proof (split_last_spec _ _ _ Esp) as Hp. rewrite Hp in *.
+    unfold bind at 1 in Hrun. unfold first_real in Hrun. rewrite Elr in Hrun. cbn [ret] in Hrun.
+    unfold bind at 1 in Hrun. unfold get_node at 1 in Hrun. destruct (nget pp (root s)) as [pn|] eqn:Hgp; [|exact (Keep _ Hrun)].
+    unfold bind at 1 in Hrun.
+    destruct ((if in_upper pn then ret tt else create_upper_dir (S (List.length pp)) pp) s) as [r1 s1] eqn:E1.
+    destruct (Leaf (Lnk tg) (fun _ => ret tt) eq_refl (conj eq_refl (conj eq_refl (wf_lnk _))) pp nm eq_refl pn Hgp r1 s1 E1)
+      as (HC1 & SP1 & Hlo1 & Fr1 & Hup1 & Hn1 & Hst1 & Hrt1).
+    assert (Keep1 : forall e, (Err e, s1) = (r, s') ->
+              Coherent s' /\ same_paths s s' /\ lowers s' = lowers s /\ cache_frame (pp ++ [nm]) s s' /\ (r = Ok tt -> upper_at' (pp ++ [nm]) s')).
+    { intros e H. inversion H; subst. split; [exact HC1|]. split; [exact SP1|]. split; [exact Hlo1|]. split; [exact Fr1|discriminate]. }
+    destruct r1 as [[]|e1]; [|exact (Keep1 _ Hrun)]. specialize (Hup1 eq_refl).
+    unfold bind at 1 in Hrun. rewrite Hrt1 in Hrun.
+    unfold bind at 1 in Hrun. unfold get_node at 1 in Hrun. destruct (nget pp (root s1)) as [pn'|] eqn:Hgp1; [|exact (Keep1 _ Hrun)].
+    pose proof (Hup1 pn' Hgp1) as Hpu. unfold in_upper in Hpu.
+    unfold bind at 1 in Hrun. unfold upper_real in Hrun.
+    destruct (n_reals pn') as [|pr prs] eqn:Epr; [discriminate|]. rewrite Hpu in Hrun. cbn [ret] in Hrun.
+    pose proof HC1 as (_ & Hw1 & HCT1). pose proof (HCT1 pp pn' Hgp1) as Npn.
+    destruct (first_upper_stack s1 pp pn' pr prs Npn Epr Hpu) as (Hl0 & Hpp & rest & Hstk).
+    unfold bind at 1 in Hrun.
+    destruct (ri_symlink pr nm tg s1) as [[ri|e] s2] eqn:Ec.
+    2:{ inversion Hrun; subst r s'.
+        assert (Hs2 : s2 = s1).
+        { unfold ri_symlink, ri_guard in Ec. rewrite Hpu in Ec. unfold bind at 1 in Ec. cbn [ret] in Ec. unfold bind at 1 in Ec.
+          unfold mutate in Ec. rewrite Hl0 in Ec. cbn [get_layer upper] in Ec.
+          destruct (upper s1) as [u1|]; [|inversion Ec; auto].
+          destruct (h_symlink (r_path pr) nm tg u1); inversion Ec; auto. }
+        subst s2. split; [exact HC1|]. split; [exact SP1|]. split; [exact Hlo1|]. split; [exact Fr1|discriminate]. }
+    destruct (ri_symlink_spec _ _ _ _ _ _ Hpu Hl0 Ec) as (U & U1 & HU & Hcr & -> & HU2 & Hlow2 & Hroot2).
+    rewrite Hpp in *.
+    unfold mod_node in Hrun. inversion Hrun; subst r s'; clear Hrun.
+    split; [|split; [|split; [|split]]].
+    + apply (cnu_leaf_tail s1 pp nm (Lnk tg) n (Lnk tg) pn' pr prs U U1); auto.
+      * repeat split; constructor.
+      * cbn [root]. rewrite Hroot2. reflexivity.
+    + apply (same_paths_trans s s1 _); [exact SP1|]. intros q. cbn [root]. rewrite Hroot2.
+      apply nget_nupd_sig with (n0 := n); [intros m0; reflexivity|exact Hn1|]. unfold nsig, add_upper; cbn. rewrite Elr. cbn. rewrite Hd0. reflexivity.
+    + cbn [lowers]. congruence.
+    + intros q Hq. cbn [root]. rewrite Hroot2, (nget_nupd_frame _ (pp ++ [nm])); [apply Fr1; exact Hq|intros m0; reflexivity|exact Hq].
+    + intros _ n' Hn'. cbn [root] in Hn'. rewrite nget_nupd in Hn'. destruct (nget (pp ++ [nm]) (root s2)); cbn [option_map] in Hn'; [|discriminate].
+      inversion Hn'; subst. reflexivity.
+Qed.
+
+(* ------------------------------------------------------------------ steps that only load directories *)
+Definition cpres {A} (m : M A) : Prop := forall s, Coherent s -> Coherent (snd (m s)).
+Lemma cpres_same {A} (m : M A) : (forall s, snd (m s) = s) -> cpres m.
+Proof. intros H s HC. rewrite H. exact HC. Qed.
+Lemma cpres_bind {A B} (m : M A) (f : A -> M B) : cpres m -> (forall a, cpres (f a)) -> cpres (bind m f).
+Proof.
+  intros Hm Hf s HC. unfold bind. specialize (Hm s HC). destruct (m s) as [[a|e] s1]; cbn [snd] in *; [apply Hf; exact Hm|exact Hm].
+Qed.
+Lemma cpres_if {A} (b : bool) (m1 m2 : M A) : cpres m1 -> cpres m2 -> cpres (if b then m1 else m2).
+Proof. destruct b; auto. Qed.
+Lemma cpres_ret {A} (a : A) : cpres (ret a). Proof. apply cpres_same; reflexivity. Qed.
+Lemma cpres_fail {A} e : cpres (@fail A e). Proof. apply cpres_same; reflexivity. Qed.
+Lemma cpres_get_node p : cpres (get_node p).
+Proof. apply cpres_same. intros s. unfold get_node. destruct (nget p (root s)); reflexivity. Qed.
+Lemma cpres_stat_node n : cpres (stat_node n).
+Proof. apply cpres_same. intros s. unfold stat_node. destruct (node_stat s n); reflexivity. Qed.
+Lemma cpres_load_dir p : cpres (load_dir p).
+Proof. intros s HC. apply load_dir_coherent. exact HC. Qed.
+Lemma cpres_load_if_dir p n st : cpres (load_if_dir p n st).
+Proof. unfold load_if_dir. apply cpres_if; [apply cpres_load_dir|apply cpres_ret]. Qed.
+Lemma cpres_lookup_node p nm : cpres (lookup_node p nm).
+Proof.
+  unfold lookup_node. apply cpres_bind; [apply cpres_get_node|]. intros pn.
+  apply cpres_if; [apply cpres_fail|]. apply cpres_bind; [apply cpres_stat_node|]. intros st.
+  apply cpres_bind; [apply cpres_load_if_dir|]. intros _.
+  destruct nm as [c|]; [|apply cpres_ret]. apply cpres_bind; [apply cpres_get_node|]. intros pn'.
+  destruct (afind c (n_ch pn')); [apply cpres_ret|apply cpres_fail].
+Qed.
+Lemma cpres_lookup_ignore p nm : cpres (lookup_node_ignore_enoent p nm).
+Proof.
+  intros s HC. pose proof (cpres_lookup_node p (Some nm) s HC) as H. unfold lookup_node_ignore_enoent.
+  destruct (lookup_node p (Some nm) s) as [[q|e] s1]; cbn [snd] in *; [exact H|]. destruct (e =? ENOENT)%N; exact H.
+Qed.
+Lemma cpres_do_lookup p nm : cpres (do_lookup p nm).
+Proof.
+  unfold do_lookup. apply cpres_bind; [apply cpres_lookup_node|]. intros q.
+  apply cpres_bind; [apply cpres_get_node|]. intros n. apply cpres_if; [apply cpres_fail|].
+  apply cpres_bind; [apply cpres_stat_node|]. intros st.
+  apply cpres_bind; [apply cpres_load_if_dir|]. intros _. apply cpres_ret.
+Qed.
+Lemma cpres_walk_from p : forall cur, cpres (walk_from cur p).
+Proof.
+  induction p as [|c p IH]; intros cur; cbn [walk_from]; [apply cpres_ret|].
+  apply cpres_bind; [apply cpres_do_lookup|]. intros _. apply IH.
+Qed.
+Lemma cpres_walk p : cpres (walk p). Proof. apply cpres_walk_from. Qed.
+Lemma cpres_with_parent {A} p (f : path -> name -> M A) : (forall pp nm, cpres (f pp nm)) -> cpres (with_parent p f).
+Proof.
+  intros H. unfold with_parent. destruct (split_last p) as [[pp nm]|]; [|apply cpres_fail].
+  apply cpres_bind; [apply cpres_walk|]. intros _. apply H.
+Qed.
+Lemma cpres_entry_of pp nm : cpres (entry_of pp nm).
+Proof. unfold entry_of. apply cpres_bind; [apply cpres_do_lookup|]. intros e. apply cpres_ret. Qed.
+Lemma cpres_sync_parent pp : cpres (sync_parent pp).
+Proof.
+  unfold sync_parent. apply cpres_bind; [apply cpres_lookup_node|]. intros _.
+  apply cpres_bind; [apply cpres_get_node|]. intros pn. apply cpres_if; [apply cpres_fail|apply cpres_ret].
+Qed.
+Lemma cpres_need_upper : cpres need_upper.
+Proof. apply cpres_same. intros s. unfold need_upper, bind, has_upper. destruct (upper s); reflexivity. Qed.
+Lemma cpres_node_checked p : cpres (node_checked p).
+Proof.
+  unfold node_checked. apply cpres_bind; [apply cpres_lookup_node|]. intros _.
+  apply cpres_bind; [apply cpres_get_node|]. intros n. apply cpres_if; [apply cpres_fail|apply cpres_ret].
+Qed.
+
+(* what lookup_node_ignore_enoent tells about the parent afterwards *)
+Lemma lookup_ignore_spec (pp : path) (nm : name) s pn r s1 :
+  Coherent s -> nget pp (root s) = Some pn -> n_wh pn = false ->
+  lookup_node_ignore_enoent pp nm s = (r, s1) ->
+  Coherent s1 /\ upper s1 = upper s /\ lowers s1 = lowers s /\
+  exists pn1, nget pp (root s1) = Some pn1 /\ n_wh pn1 = false /\
+    (n_loaded pn1 = true \/ first_dir (n_reals pn1) = false) /\
+    match r with
+    | Ok None => afind nm (n_ch pn1) = None
+    | Ok (Some q) => q = pp ++ [nm] /\ exists c, afind nm (n_ch pn1) = Some c
+    | Err _ => True
+    end.
+Proof.
+  intros HC Hg Hw Hrun.
+  pose proof (cpres_lookup_ignore pp nm s HC) as HC1. rewrite Hrun in HC1. cbn [snd] in HC1.
+  destruct (keeps_lookup_node pp (Some nm) s) as (K1 & K2 & _).
+  assert (Hs1 : snd (lookup_node pp (Some nm) s) = s1).
+  { unfold lookup_node_ignore_enoent in Hrun. destruct (lookup_node pp (Some nm) s) as [[q|e] s0]; cbn [snd].
+    - inversion Hrun; reflexivity.
+    - destruct (e =? ENOENT)%N; inversion Hrun; reflexivity. }
+  rewrite Hs1 in K1, K2. split; [exact HC1|]. split; [exact K1|]. split; [exact K2|].
+  (* run lookup_node by hand *)
+  unfold lookup_node_ignore_enoent in Hrun. unfold lookup_node in Hrun.
+  unfold bind at 1 in Hrun. unfold get_node at 1 in Hrun. rewrite Hg, Hw in Hrun.
+  unfold bind at 1 in Hrun. unfold stat_node in Hrun. destruct (node_stat s pn) as [st|] eqn:Hst.
+  2:{ exfalso. destruct HC as (_ & _ & HCT). destruct (first_good_stat s _ pp pn (HCT pp pn Hg)) as (? & ? & ? & _ & _ & H & _). congruence. }
+  unfold bind at 1 in Hrun.
+  destruct (load_if_dir pp pn st s) as [[[]|e] s0] eqn:El.
+  2:{ exfalso. unfold load_if_dir in El. destruct (is_dirT st) eqn:Ed; cbn [andb] in El; [|inversion El].
+      destruct (n_loaded pn) eqn:Eld; cbn [negb] in El; [inversion El|].
+      unfold load_dir, bind, get_node in El. rewrite Hg, Eld in El.
+      destruct HC as (_ & Hwl & HCT). destruct st; try discriminate.
+      destruct (scan_ok s (wf_layers_wf s Hwl) _ pp pn _ _ _ (HCT pp pn Hg) Hst) as [cs Hcs]. rewrite Hcs in El.
+      unfold mod_node in El. inversion El. }
+  assert (Hfd : first_dir (n_reals pn) = is_dirT st).
+  { destruct HC as (_ & _ & HCT). destruct (first_good_stat s _ pp pn (HCT pp pn Hg)) as (r0 & rs0 & t0 & Er0 & _ & Hs0 & _ & Hd0 & _).
+    rewrite Hst in Hs0. inversion Hs0; subst t0. rewrite Er0. exact Hd0. }
+  assert (Hpn1 : exists pn1, nget pp (root s0) = Some pn1 /\ n_wh pn1 = false /\ (n_loaded pn1 = true \/ first_dir (n_reals pn1) = false)).
+  { unfold load_if_dir in El. destruct (is_dirT st) eqn:Ed; cbn [andb] in El.
+    - destruct (n_loaded pn) eqn:Eld; cbn [negb] in El; [inversion El; subst; exists pn; auto|].
+      unfold load_dir, bind, get_node in El. rewrite Hg, Eld in El.
+      destruct (scan_children s pn) as [cs|] eqn:Esc; [|inversion El]. unfold mod_node in El. inversion El; subst. cbn [root].
+      rewrite nget_nupd, Hg. cbn [option_map]. eexists. split; [reflexivity|]. destruct (load1_reals s pn) as [_ W]. rewrite W.
+      split; [exact Hw|]. left. unfold load1. rewrite Eld, Esc. reflexivity.
+    - inversion El; subst. exists pn. split; [exact Hg|]. split; [exact Hw|]. right. exact Hfd. }
+  destruct Hpn1 as (pn1 & Hg1 & Hw1 & Hld1).
+  unfold bind at 1 in Hrun. unfold get_node at 1 in Hrun. rewrite Hg1 in Hrun.
+  exists pn1. destruct (afind nm (n_ch pn1)) as [c|] eqn:Ec; cbn in Hrun; inversion Hrun; subst; eauto 10.
+Qed.
+
+(* ------------------------------------------------------------------ composing updates of one directory of the upper tree *)
+Lemma amap_ext {A} c (g g' : A -> A) l : (forall x, g x = g' x) -> amap c g l = amap c g' l.
+Proof. intros H. unfold amap. apply map_ext. intros kv. destruct (String.eqb c (fst kv)); [rewrite H|]; reflexivity. Qed.
+Lemma amap_amap {A} c (g1 g2 : A -> A) l : amap c g2 (amap c g1 l) = amap c (fun x => g2 (g1 x)) l.
+Proof.
+  unfold amap. rewrite map_map. apply map_ext. intros [k v]. cbn [fst snd].
+  destruct (String.eqb c k) eqn:E; cbn [fst snd]; rewrite E; reflexivity.
+Qed.
+Lemma tupd_ext pp g g' : (forall d, g d = g' d) -> forall U, tupd pp g U = tupd pp g' U.
+Proof.
+  intros H. induction pp as [|c pp IH]; intros U; cbn [tupd]; [apply H|]. destruct U; try reflexivity.
+  f_equal. apply amap_ext. exact IH.
+Qed.
+Lemma tupd_tupd pp g1 g2 : forall U, tupd pp g2 (tupd pp g1 U) = tupd pp (fun d => g2 (g1 d)) U.
+Proof.
+  induction pp as [|c pp IH]; intros U; cbn [tupd]; [reflexivity|]. destruct U; try reflexivity. cbn [tupd].
+  f_equal. rewrite amap_amap. apply amap_ext. exact IH.
+Qed.
+Lemma tupd_snoc pp nm f : forall U, tupd (pp ++ [nm]) f U = tupd pp (chmap (amap nm f)) U.
+Proof.
+  induction pp as [|c pp IH]; intros U; cbn [app tupd].
+  - destruct U; reflexivity.
+  - destruct U; try reflexivity. f_equal. apply amap_ext. exact IH.
+Qed.
+Lemma chmap_chmap G1 G2 d : chmap G2 (chmap G1 d) = chmap (fun ch => G2 (G1 ch)) d.
+Proof. destruct d; reflexivity. Qed.
+Lemma dir_ins_chmap nm c d : dir_ins nm c d = chmap (aset nm c) d. Proof. destruct d; reflexivity. Qed.
+Lemma dir_del_chmap nm d : dir_del nm d = chmap (adel nm) d. Proof. destruct d; reflexivity. Qed.
+
+Lemma nget_snoc (pp : path) (nm : name) r pn c : nget pp r = Some pn -> afind nm (n_ch pn) = Some c -> nget (pp ++ [nm]) r = Some c.
+Proof.
+  revert r. induction pp as [|a pp IH]; intros r Hp Hc; cbn [nget app] in *.
+  - inversion Hp; subst. rewrite Hc. reflexivity.
+  - destruct (afind a (n_ch r)); [eapply IH; eassumption|discriminate].
+Qed.
+Lemma nget_snoc_none (pp : path) (nm : name) r pn : nget pp r = Some pn -> afind nm (n_ch pn) = None -> nget (pp ++ [nm]) r = None.
+Proof.
+  revert r. induction pp as [|a pp IH]; intros r Hp Hc; cbn [nget app] in *.
+  - inversion Hp; subst. rewrite Hc. reflexivity.
+  - destruct (afind a (n_ch r)); [eapply IH; eassumption|discriminate].
+Qed.
+
+(* ------------------------------------------------------------------ do_mkdir *)
+Lemma mutate0_same f s e s3 : mutate 0 f s = (Err e, s3) -> s3 = s.
+Proof.
+  unfold mutate. cbn [get_layer]. destruct (upper s) as [t|]; [|intros H; inversion H; reflexivity].
+  destruct (f t); intros H; inversion H; reflexivity.
+Qed.
+Lemma ri_mkdir_fail pr nm m s e s2 : r_layer pr = 0%nat -> ri_mkdir pr nm m s = (Err e, s2) -> s2 = s.
+Proof.
+  intros Hl. unfold ri_mkdir, ri_guard. destruct (r_upper pr); [|intros H; inversion H; reflexivity].
+  unfold bind at 1. cbn [ret]. unfold bind at 1. rewrite Hl.
+  destruct (mutate 0 (h_mkdir (r_path pr) nm m) s) as [[[]|e'] s3] eqn:Em; [intros H; inversion H|].
+  intros H; inversion H; subst. eapply mutate0_same; exact Em.
+Qed.
+Definition OPQV : bytes := [121%N].
+Lemma xs_opaque_marker : xs_opaque [(OPQ1, OPQV)] = true.
+Proof. reflexivity. Qed.
+
+Lemma upper_set_layer s U t : upper s = Some U -> upper (set_layer s 0 t) = Some t.
+Proof. intros H. unfold set_layer; cbn. rewrite H. reflexivity. Qed.
+Lemma mutate0_ok f s U U' : upper s = Some U -> f U = Ok U' -> mutate 0 f s = (Ok tt, set_layer s 0 U').
+Proof. intros Hu Hf. unfold mutate. cbn [get_layer]. rewrite Hu, Hf. reflexivity. Qed.
+
+Definition mkdir_tail (pp : path) (nm : name) (mode : N) (pr : real) (delw opq : bool) : M unit :=
+  (if delw then delete_whiteout_ignored pr nm else ret tt);;;
+  ri <- ri_mkdir pr nm mode;;
+  (if opq then mutate (r_layer pr) (h_set_opaque (r_path ri)) else ret tt);;;
+  insert_child pp nm (new_node ri).
+
+Lemma mkdir_tail_coherent s2 (pp : path) (nm : name) mode pr prs pn2 u2 m x ch rest delw opq r s' :
+  Coherent s2 -> upper s2 = Some u2 -> tget u2 pp = Some (Dir m x ch) ->
+  nget pp (root s2) = Some pn2 -> n_reals pn2 = pr :: prs -> r_upper pr = true -> r_layer pr = 0%nat -> r_path pr = pp ->
+  n_loaded pn2 = true -> lstack (shp s2) (List.length (lowers s2)) pp = 0%nat :: rest ->
+  match afind nm ch with
+  | Some Wh => delw = true /\ opq = true
+  | None => delw = false /\ (opq = true \/ lowerc (shp s2) pp nm rest = [])
+  | _ => False
+  end ->
+  mkdir_tail pp nm mode pr delw opq s2 = (r, s') -> Coherent s'.
+Proof.
+  intros HC2 Hu2 Etg Hg2 Epr Hpu Hl0 Hpp Hld2 Hstk Hcase Hrun.
+  set (c0 := Dir (N.land mode 1023) [] []).
+  pose proof HC2 as (_ & Hwl2 & HCT2).
+  (* the upper tree after the optional removal of the whiteout *)
+  set (Ua := if delw then tupd pp (dir_del nm) u2 else u2).
+  set (chA := if delw then adel nm ch else ch).
+  assert (Hs3 : exists s3, (if delw then delete_whiteout_ignored pr nm else ret tt) s2 = (Ok tt, s3) /\
+                 upper s3 = Some Ua /\ lowers s3 = lowers s2 /\ root s3 = root s2 /\
+                 tget Ua pp = Some (Dir m x chA) /\ afind nm chA = None).
+  { unfold chA. destruct (afind nm ch) as [[| | |]|] eqn:Enm; try contradiction.
+    - destruct Hcase as [-> _]. unfold Ua. eexists. split; [|split; [|split; [|split; [|split]]]].
+      + unfold delete_whiteout_ignored, ignore. rewrite Hl0, Hpp.
+        rewrite (mutate0_ok (h_delete_whiteout pp nm) s2 u2 (tupd pp (dir_del nm) u2) Hu2); [reflexivity|].
+        unfold h_delete_whiteout. rewrite (tget_app u2 pp nm), Etg, Enm. unfold h_unlink. rewrite Etg, Enm. reflexivity.
+      + apply (upper_set_layer _ u2). exact Hu2.
+      + reflexivity.
+      + reflexivity.
+      + rewrite tget_tupd, Etg. reflexivity.
+      + rewrite afind_adel, String.eqb_refl. reflexivity.
+    - destruct Hcase as [-> _]. unfold Ua. exists s2. cbn [ret]. repeat split; auto. }
+  destruct Hs3 as (s3 & E3 & Hu3 & Hl3 & Hr3 & Etg3 & Enm3).
+  unfold mkdir_tail in Hrun. unfold bind at 1 in Hrun. rewrite E3 in Hrun.
+  (* mkdir *)
+  set (Ub := tupd pp (dir_ins nm c0) Ua).
+  assert (E4 : ri_mkdir pr nm mode s3 = (Ok (mkReal 0 true (pp ++ [nm]) false false true), set_layer s3 0 Ub)).
+  { unfold ri_mkdir, ri_guard. rewrite Hpu. unfold bind at 1. cbn [ret]. unfold bind at 1. rewrite Hl0, Hpp.
+    rewrite (mutate0_ok (h_mkdir pp nm mode) s3 Ua Ub Hu3); [reflexivity|].
+    unfold h_mkdir, h_insert. rewrite Etg3, Enm3. reflexivity. }
+  unfold bind at 1 in Hrun. rewrite E4 in Hrun. cbn [r_path] in Hrun.
+  set (s4 := set_layer s3 0 Ub) in *.
+  assert (Hu4 : upper s4 = Some Ub) by (apply (upper_set_layer _ Ua); exact Hu3).
+  assert (Hget4 : tget Ub (pp ++ [nm]) = Some c0).
+  { unfold Ub. rewrite (tget_app _ pp nm), tget_tupd, Etg3. cbn [option_map dir_ins]. apply afind_aset_same. }
+  set (fx := set_xs OPQ1 OPQV).
+  set (Uc := if opq then tupd (pp ++ [nm]) fx Ub else Ub).
+  assert (Hs5 : exists s5, (if opq then mutate (r_layer pr) (h_set_opaque (pp ++ [nm])) else ret tt) s4 = (Ok tt, s5) /\
+                 upper s5 = Some Uc /\ lowers s5 = lowers s2 /\ root s5 = root s2).
+  { unfold Uc. destruct opq.
+    - eexists. split; [|split; [|split]].
+      + rewrite Hl0. apply (mutate0_ok (h_set_opaque (pp ++ [nm])) s4 Ub (tupd (pp ++ [nm]) fx Ub) Hu4). unfold h_set_opaque. rewrite Hget4. unfold c0 at 1.
+        unfold h_setxattr, h_update. rewrite Hget4. unfold c0 at 1. reflexivity.
+      + apply (upper_set_layer _ Ub). exact Hu4.
+      + cbn [lowers set_layer s4]. exact Hl3.
+      + cbn [root set_layer s4]. exact Hr3.
+    - exists s4. cbn [ret]. repeat split; auto. }
+  destruct Hs5 as (s5 & E5 & Hu5 & Hl5 & Hr5).
+  unfold bind at 1 in Hrun. rewrite E5 in Hrun. unfold insert_child, mod_node in Hrun. inversion Hrun; subst r s'; clear Hrun.
+  (* the final upper tree as one update of the directory pp *)
+  set (cfin := if opq then fx c0 else c0).
+  set (G := fun l : list (name * tree) =>
+              (if opq then amap nm fx else (fun y => y)) (aset nm c0 ((if delw then adel nm else (fun y => y)) l))).
+  assert (HUc : Uc = tupd pp (chmap G) u2).
+  { unfold Uc, Ub, Ua, G. destruct opq, delw; rewrite ?tupd_snoc, ?tupd_tupd; apply tupd_ext; intros d; destruct d; reflexivity. }
+  assert (HG1 : forall k, k <> nm -> afind k (G ch) = afind k ch).
+  { intros k Hk. apply String.eqb_neq in Hk. unfold G. destruct opq, delw; rewrite ?afind_amap_other by (rewrite String.eqb_sym; exact Hk);
+      rewrite afind_aset, Hk, ?afind_adel, ?Hk; reflexivity. }
+  assert (HG2 : afind nm (G ch) = Some cfin).
+  { unfold G, cfin. destruct opq, delw; rewrite ?afind_amap, afind_aset, String.eqb_refl; reflexivity. }
+  apply (leaf_block s2 _ u2 pp nm G cfin pn2 rest m x ch (mkReal 0 true (pp ++ [nm]) false false true)).
+  - exact HC2.
+  - exact Hu2.
+  - exact Etg.
+  - exact HG1.
+  - exact HG2.
+  - intros k r0. unfold cfin, c0, fx. destruct opq; reflexivity.
+  - cbn [upper]. rewrite Hu5, HUc. reflexivity.
+  - cbn [lowers]. exact Hl5.
+  - apply (wf_layers_set_upper s2 _ (tupd pp (chmap G) u2) Hwl2); cbn [upper lowers]; [rewrite Hu5, HUc; reflexivity|exact Hl5|].
+    apply layer_ok_tupd.
+    + intros d Hd. destruct d; try exact Hd. inversion Hd as [? ? ? Hn Hall| | |]; subst. cbn [chmap]. unfold G.
+      assert (W0 : NoDup (map fst (aset nm c0 ((if delw then adel nm else fun y => y) ch0))) /\
+                   Forall (fun kv => wf (snd kv)) (aset nm c0 ((if delw then adel nm else fun y => y) ch0))).
+      { split.
+        - apply keys_aset. destruct delw; [apply keys_adel_nodup|]; exact Hn.
+        - apply Forall_aset; [destruct delw; [apply Forall_adel|]; exact Hall|]. cbn [snd]. constructor; constructor. }
+      destruct W0 as [W1 W2]. constructor.
+      * destruct opq; [rewrite keys_amap|]; exact W1.
+      * destruct opq; [|exact W2]. apply (Forall_snd_amap (fun v => wf v)); [|exact W2]. intros a Ha. unfold fx. destruct a; cbn [set_xs]; try exact Ha.
+        -- inversion Ha; subst. constructor; assumption.
+        -- constructor.
+    + intros d Hd. destruct d; try discriminate. reflexivity.
+    + apply (Hwl2 0%nat u2). cbn. exact Hu2.
+  - exact Hg2.
+  - exact Hld2.
+  - exact Hstk.
+  - cbn [r_layer r_upper r_path r_wh r_dir r_opq]. unfold cfin, c0, fx. destruct opq; cbn; repeat split; auto; discriminate.
+  - unfold cfin, c0, fx.
+    destruct (afind nm ch) as [[| | |]|] eqn:Enm; try contradiction.
+    + destruct Hcase as [_ ->]. right. left. reflexivity.
+    + destruct Hcase as [_ [->|H]]; [right; left; reflexivity|right; right; exact H].
+  - exists (set_child nm (new_node (mkReal 0 true (pp ++ [nm]) false false true))).
+    split; [cbn [root]; rewrite Hr5; reflexivity|]. unfold set_child; cbn [n_reals n_wh n_loaded n_ch].
+    pose proof (HCT2 pp pn2 Hg2) as Npn2. repeat split; auto.
+    + apply keys_aset. apply Npn2.
+    + rewrite afind_aset, String.eqb_refl. reflexivity.
+    + intros k Hk. rewrite afind_aset. apply String.eqb_neq in Hk. rewrite Hk. reflexivity.
+Qed.
+
+Lemma shp_zero_dir s u p o : upper s = Some u -> shp s 0%nat p = Some (SDir o) -> exists m x ch, tget u p = Some (Dir m x ch).
+Proof.
+  intros Hu H. unfold shp, ent in H. cbn [get_layer] in H. rewrite Hu in H.
+  destruct (tget u p) as [[m x ch| | |]|]; cbn in H; try discriminate. eauto.
+Qed.
+
+Lemma tget_snoc t (p : path) (k : name) : tget t (p ++ [k]) = match tget t p with Some (Dir _ _ ch) => afind k ch | _ => None end.
+Proof. apply tget_app. Qed.
+Lemma cpres_do_mkdir (pp : path) (nm : name) mode : cpres (do_mkdir pp nm mode).
+Proof.
+  intros s HC. destruct (do_mkdir pp nm mode s) as [r s'] eqn:Hrun. cbn [snd].
+  unfold do_mkdir in Hrun.
+  pose proof HC as ([u Hu] & Hwl & HCT).
+  unfold bind at 1 in Hrun. unfold need_upper in Hrun. unfold bind at 1 in Hrun. unfold has_upper in Hrun. rewrite Hu in Hrun. cbn [ret] in Hrun.
+  unfold bind at 1 in Hrun. unfold get_node at 1 in Hrun. destruct (nget pp (root s)) as [pn|] eqn:Hg; [|inversion Hrun; subst; exact HC].
+  destruct (n_wh pn) eqn:Ew; [inversion Hrun; subst; exact HC|].
+  unfold bind at 1 in Hrun. destruct (lookup_node_ignore_enoent pp nm s) as [rf s1] eqn:Elk.
+  destruct (lookup_ignore_spec pp nm s pn rf s1 HC Hg Ew Elk) as (HC1 & Hu1 & Hl1 & pn1 & Hg1 & Hw1 & Hld1 & Hfound).
+  destruct rf as [found|e]; [|inversion Hrun; subst; exact HC1].
+  unfold bind at 1 in Hrun.
+  set (flagsM := match found with
+           | Some q => n <- get_node q;; (if negb (n_wh n) then fail EEXIST else ret (in_upper n, true))
+           | None => ret (false, false) end) in Hrun.
+  destruct (flagsM s1) as [[[delw opq]|e] s1'] eqn:Efl.
+  2:{ assert (s1' = s1).
+      { unfold flagsM in Efl. destruct found as [q|]; [|inversion Efl].
+        unfold bind, get_node in Efl. destruct (nget q (root s1)); [|inversion Efl; reflexivity].
+        destruct (negb (n_wh n)); inversion Efl; reflexivity. }
+      subst s1'. inversion Hrun; subst. exact HC1. }
+  assert (Hfl : s1' = s1 /\
+     match found with
+     | None => delw = false /\ opq = false /\ afind nm (n_ch pn1) = None
+     | Some q => exists c, afind nm (n_ch pn1) = Some c /\ n_wh c = true /\ delw = in_upper c /\ opq = true
+     end).
+  { unfold flagsM in Efl. destruct found as [q|].
+    - destruct Hfound as (-> & c & Hc). unfold bind, get_node in Efl. rewrite (nget_snoc pp nm (root s1) pn1 c Hg1 Hc) in Efl.
+      destruct (n_wh c) eqn:Ewc; cbn [negb] in Efl; inversion Efl; subst. split; [reflexivity|]. eauto 10.
+    - inversion Efl; subst. auto. }
+  destruct Hfl as (-> & Hfl). clear Efl flagsM.
+  unfold bind at 1 in Hrun. destruct (copy_node_up pp s1) as [rc s2] eqn:Ecu.
+  destruct (cnu_coherent pp s1 rc s2 HC1) as (HC2 & SP2 & Hl2 & Fr2 & Hup2); [intros n0 Hn0; rewrite Hg1 in Hn0; inversion Hn0; subst; exact Hw1|exact Ecu|].
+  destruct rc as [[]|e]; [|inversion Hrun; subst; exact HC2]. specialize (Hup2 eq_refl).
+  unfold bind at 1 in Hrun. unfold get_node at 1 in Hrun.
+  destruct (same_paths_some s1 s2 pp pn1 SP2 Hg1) as (pn2 & Hg2 & Hsig2). rewrite Hg2 in Hrun.
+  pose proof (Hup2 pn2 Hg2) as Hpu. unfold in_upper in Hpu. unfold bind at 1 in Hrun. unfold upper_real in Hrun.
+  destruct (n_reals pn2) as [|pr prs] eqn:Epr; [discriminate|]. rewrite Hpu in Hrun. cbn [ret] in Hrun.
+  pose proof HC2 as ([u2 Hu2] & Hwl2 & HCT2). pose proof (HCT2 pp pn2 Hg2) as Npn2. cbn [app] in Npn2.
+  destruct (first_upper_stack s2 pp pn2 pr prs Npn2 Epr Hpu) as (Hl0 & Hpp & rest & Hstk).
+  change (mkdir_tail pp nm mode pr delw opq s2 = (r, s')) in Hrun.
+  assert (Hq2 : nget (pp ++ [nm]) (root s2) = nget (pp ++ [nm]) (root s1)) by (apply Fr2; apply not_prefix_snoc).
+  assert (Hrg : rgood (shp s2) pp pr) by (pose proof (ok_reals _ _ _ _ Npn2) as G; rewrite Epr in G; inversion G; assumption).
+  destruct (tget u2 pp) as [[m x ch| | |]|] eqn:Etg.
+  - (* the parent is a directory in the upper layer *)
+    pose proof (sh_dir_of_tget s2 u2 pp m x ch Hu2 Etg) as Hpd.
+    assert (Hfd2 : first_dir (n_reals pn2) = true).
+    { destruct Hrg as (_ & _ & Hs). rewrite Hl0, Hpd in Hs. rewrite Epr. cbn. tauto. }
+    assert (Hld2 : n_loaded pn2 = true).
+    { unfold nsig in Hsig2. inversion Hsig2 as [[A B]]. rewrite A. destruct Hld1 as [H|H]; [exact H|]. congruence. }
+    destruct (ok_ld _ _ _ _ Npn2 Hld2) as (_ & _ & Kids).
+    assert (Hag0 : forall i p', ~ is_prefix (pp ++ [nm]) p' -> shp s2 i p' = shp s2 i p') by reflexivity.
+    pose proof (kids_old (shp s2) (shp s2) (List.length (lowers s2)) pp nm Hag0 (fun j p' => eq_refl) rest _ Hstk Hpd) as Ko.
+    apply (mkdir_tail_coherent s2 pp nm mode pr prs pn2 u2 m x ch rest delw opq r s'); auto.
+    destruct found as [q|].
+    + destruct Hfl as (c & Hc & Hwc & -> & ->).
+      pose proof (nget_snoc pp nm (root s1) pn1 c Hg1 Hc) as Hqc. rewrite <- Hq2 in Hqc.
+      pose proof (HCT2 _ _ Hqc) as Nc. cbn [app] in Nc.
+      destruct (first_good_stat s2 _ _ c Nc) as (rw & rws & tw & Erw & Etw & _ & Hwt & _ & Hpw).
+      assert (Htw : tw = Wh).
+      { pose proof (ok_wh _ _ _ _ Nc) as W. rewrite Erw in W. cbn in W. rewrite Hwc in W. rewrite <- W in Hwt.
+        destruct tw; try discriminate. reflexivity. }
+      subst tw. unfold in_upper. rewrite Erw.
+      pose proof (ok_reals _ _ _ _ Nc) as G. rewrite Erw in G. pose proof (Forall_inv G) as (_ & Hupw & _).
+      destruct (r_upper rw) eqn:Euw.
+      * symmetry in Hupw. apply Nat.eqb_eq in Hupw. rewrite Hupw in Etw. unfold ent in Etw. cbn [get_layer] in Etw. rewrite Hu2 in Etw.
+        rewrite (tget_snoc u2 pp nm), Etg in Etw. rewrite Etw. auto.
+      * (* the whiteout is in a lower layer: the upper layer has no entry of that name *)
+        symmetry in Hupw. apply Nat.eqb_neq in Hupw.
+        destruct (afind nm ch) as [y|] eqn:Ey; [|auto].
+        exfalso. pose proof (ok_hd _ _ _ _ Nc) as Hh. rewrite Erw in Hh. cbn [map hd_error] in Hh.
+        rewrite lstack_snoc, Ko in Hh.
+        assert (Hp0 : present (shp s2) (pp ++ [nm]) 0%nat = true).
+        { unfold present, shp, ent. cbn [get_layer]. rewrite Hu2, (tget_snoc u2 pp nm), Etg, Ey. reflexivity. }
+        rewrite Hp0 in Hh. cbn in Hh. inversion Hh. congruence.
+    + destruct Hfl as (-> & -> & Hnone).
+      assert (Hn2 : afind nm (n_ch pn2) = None).
+      { destruct (afind nm (n_ch pn2)) as [c2|] eqn:E2; [|reflexivity].
+        pose proof (nget_snoc pp nm (root s2) pn2 c2 Hg2 E2) as H2. rewrite Hq2, (nget_snoc_none pp nm (root s1) pn1 Hg1 Hnone) in H2. discriminate. }
+      apply Kids in Hn2. rewrite Ko in Hn2. apply app_eq_nil in Hn2. destruct Hn2 as [Hp0 Hlc].
+      destruct (afind nm ch) as [y|] eqn:Ey.
+      * exfalso. assert (Hp1 : present (shp s2) (pp ++ [nm]) 0%nat = true).
+        { unfold present, shp, ent. cbn [get_layer]. rewrite Hu2, (tget_snoc u2 pp nm), Etg, Ey. reflexivity. }
+        rewrite Hp1 in Hp0. discriminate.
+      * split; [reflexivity|right; exact Hlc].
+  - (* the parent's upper entry is not a directory: nothing can be created below it, nothing is removed *)
+    assert (found = None).
+    { destruct found as [q|]; [|reflexivity]. exfalso. destruct Hfl as (c & Hc & _).
+      destruct Hrg as (_ & _ & Hs). rewrite Hl0 in Hs. unfold shp, ent in Hs. cbn [get_layer] in Hs. rewrite Hu2, Etg in Hs. cbn in Hs.
+      pose proof (nget_snoc pp nm (root s1) pn1 c Hg1 Hc) as Hqc. rewrite <- Hq2 in Hqc.
+      pose proof (nget_child pp nm (root s2) pn2 c Hg2 Hqc) as Hch.
+      assert (Hld2 : n_loaded pn2 = true).
+      { destruct (n_loaded pn2) eqn:El; [reflexivity|]. rewrite (ok_unl _ _ _ _ Npn2 El) in Hch. discriminate. }
+      destruct (ok_ld _ _ _ _ Npn2 Hld2) as (_ & Fd & _). rewrite Epr in Fd. cbn in Fd. destruct Hs as (_ & Hd & _). congruence. }
+    subst found. destruct Hfl as (-> & -> & _). unfold mkdir_tail in Hrun. unfold bind at 1 in Hrun. cbn [ret] in Hrun.
+    unfold bind at 1 in Hrun. destruct (ri_mkdir pr nm mode s2) as [[ri|e] s3] eqn:Emk.
+    + exfalso. destruct (ri_mkdir_spec _ _ _ _ _ _ Hpu Hl0 Emk) as (U & U1 & HU & Hmk & _). rewrite Hu2 in HU. inversion HU; subst U.
+      rewrite Hpp in Hmk. unfold h_mkdir, h_insert in Hmk. rewrite Etg in Hmk. discriminate.
+    + pose proof (ri_mkdir_fail pr nm mode s2 e s3 Hl0 Emk) as Hs3. subst s3. inversion Hrun; subst. exact HC2.
+  -     assert (found = None).
+    { destruct found as [q|]; [|reflexivity]. exfalso. destruct Hfl as (c & Hc & _).
+      destruct Hrg as (_ & _ & Hs). rewrite Hl0 in Hs. unfold shp, ent in Hs. cbn [get_layer] in Hs. rewrite Hu2, Etg in Hs. cbn in Hs.
+      pose proof (nget_snoc pp nm (root s1) pn1 c Hg1 Hc) as Hqc. rewrite <- Hq2 in Hqc.
+      pose proof (nget_child pp nm (root s2) pn2 c Hg2 Hqc) as Hch.
+      assert (Hld2 : n_loaded pn2 = true).
+      { destruct (n_loaded pn2) eqn:El; [reflexivity|]. rewrite (ok_unl _ _ _ _ Npn2 El) in Hch. discriminate. }
+      destruct (ok_ld _ _ _ _ Npn2 Hld2) as (_ & Fd & _). rewrite Epr in Fd. cbn in Fd. destruct Hs as (_ & Hd & _). congruence. }
+    subst found. destruct Hfl as (-> & -> & _). unfold mkdir_tail in Hrun. unfold bind at 1 in Hrun. cbn [ret] in Hrun.
+    unfold bind at 1 in Hrun. destruct (ri_mkdir pr nm mode s2) as [[ri|e] s3] eqn:Emk.
+    + exfalso. destruct (ri_mkdir_spec _ _ _ _ _ _ Hpu Hl0 Emk) as (U & U1 & HU & Hmk & _). rewrite Hu2 in HU. inversion HU; subst U.
+      rewrite Hpp in Hmk. unfold h_mkdir, h_insert in Hmk. rewrite Etg in Hmk. discriminate.
+    + pose proof (ri_mkdir_fail pr nm mode s2 e s3 Hl0 Emk) as Hs3. subst s3. inversion Hrun; subst. exact HC2.
+  -     assert (found = None).
+    { destruct found as [q|]; [|reflexivity]. exfalso. destruct Hfl as (c & Hc & _).
+      destruct Hrg as (_ & _ & Hs). rewrite Hl0 in Hs. unfold shp, ent in Hs. cbn [get_layer] in Hs. rewrite Hu2, Etg in Hs. cbn in Hs.
+      pose proof (nget_snoc pp nm (root s1) pn1 c Hg1 Hc) as Hqc. rewrite <- Hq2 in Hqc.
+      pose proof (nget_child pp nm (root s2) pn2 c Hg2 Hqc) as Hch.
+      assert (Hld2 : n_loaded pn2 = true).
+      { destruct (n_loaded pn2) eqn:El; [reflexivity|]. rewrite (ok_unl _ _ _ _ Npn2 El) in Hch. discriminate. }
+      destruct (ok_ld _ _ _ _ Npn2 Hld2) as (_ & Fd & _). rewrite Epr in Fd. cbn in Fd. destruct Hs as (_ & Hd & _). congruence. }
+    subst found. destruct Hfl as (-> & -> & _). unfold mkdir_tail in Hrun. unfold bind at 1 in Hrun. cbn [ret] in Hrun.
+    unfold bind at 1 in Hrun. destruct (ri_mkdir pr nm mode s2) as [[ri|e] s3] eqn:Emk.
+    + exfalso. destruct (ri_mkdir_spec _ _ _ _ _ _ Hpu Hl0 Emk) as (U & U1 & HU & Hmk & _). rewrite Hu2 in HU. inversion HU; subst U.
+      rewrite Hpp in Hmk. unfold h_mkdir, h_insert in Hmk. rewrite Etg in Hmk. discriminate.
+    + pose proof (ri_mkdir_fail pr nm mode s2 e s3 Hl0 Emk) as Hs3. subst s3. inversion Hrun; subst. exact HC2.
+  - exfalso. destruct Hrg as (_ & _ & Hs). rewrite Hl0 in Hs. unfold shp, ent in Hs. cbn [get_layer] in Hs. rewrite Hu2, Etg in Hs. exact Hs.
+Qed.
+
+(* ------------------------------------------------------------------ whole steps *)
+Lemma load_node_CohT s nl (Hwf : forall i t, get_layer s i = Some t -> wf t) f : forall p n,
+  CohT (shp s) nl p n -> CohT (shp s) nl p (load_node f s n).
+Proof.
+  induction f as [|f IH]; intros p n HC; cbn [load_node]; [exact HC|].
+  destruct (n_wh n); [exact HC|]. destruct (node_stat s n) as [[m x ch| | |]|]; try exact HC.
+  pose proof (load1_CohT s Hwf nl p n HC) as H1. set (n1 := load1 s n) in *.
+  apply CohT_intro.
+  - eapply NodeOK_shape; [| | | |apply (CohT_node _ _ _ _ H1)]; cbn [n_reals n_wh n_loaded n_ch]; try reflexivity.
+    rewrite map_map. reflexivity.
+  - cbn [n_ch]. intros k c Hk. rewrite afind_map_snd' in Hk. destruct (afind k (n_ch n1)) as [c0|] eqn:E; cbn [option_map] in Hk; [|discriminate].
+    inversion Hk; subst c. apply IH. eapply CohT_child; eassumption.
+Qed.
+Lemma load_all_coherent s : Coherent s -> Coherent (load_all s).
+Proof.
+  intros (Hu & Hw & HC). unfold load_all. split; [exact Hu|]. split; [exact Hw|]. cbn [root lowers].
+  change (shp (mkState (upper s) (lowers s) (load_node DEPTH s (root s)) (next_ino s) (log s))) with (shp s).
+  apply load_node_CohT; [apply wf_layers_wf; exact Hw|exact HC].
+Qed.
+
+Lemma cpres_first_real n : cpres (first_real n).
+Proof. unfold first_real. destruct (n_reals n); [apply cpres_fail|apply cpres_ret]. Qed.
+Lemma cpres_first_tree p : cpres (first_tree p).
+Proof.
+  unfold first_tree. apply cpres_bind; [apply cpres_get_node|]. intros n.
+  apply cpres_bind; [apply cpres_first_real|]. intros r.
+  apply cpres_same. intros s. destruct (real_tree s r); reflexivity.
+Qed.
+Lemma cpres_open_ro p : cpres (do_open p OF_R).
+Proof.
+  unfold do_open. cbn [of_readonly of_trunc].
+  apply cpres_bind; [apply cpres_lookup_node|]. intros _.
+  apply cpres_bind; [apply cpres_get_node|]. intros n. apply cpres_if; [apply cpres_fail|].
+  apply cpres_bind; [apply cpres_ret|]. intros _.
+  apply cpres_bind; [apply cpres_get_node|]. intros n'.
+  apply cpres_bind; [apply cpres_first_real|]. intros r.
+  apply cpres_bind; [apply cpres_same; intros s; destruct (real_tree s r); reflexivity|]. intros t.
+  destruct t; try apply cpres_fail; [apply cpres_ret|].
+  apply cpres_bind; [apply cpres_ret|]. intros _. apply cpres_ret.
+Qed.
+Lemma cpres_readonly o : readonly_op o = true -> cpres (step o).
+Proof.
+  unfold readonly_op. destruct o; cbn [modifying negb]; try discriminate; intros Hro; cbn [step].
+  - apply cpres_with_parent. intros pp nm. apply cpres_entry_of.
+  - apply cpres_bind; [apply cpres_walk|]; intros _. apply cpres_bind; [apply cpres_lookup_node|]; intros _.
+    apply cpres_bind; [apply cpres_first_tree|]. intros rt. apply cpres_ret.
+  - apply cpres_bind; [apply cpres_walk|]; intros _. apply cpres_bind; [apply cpres_lookup_node|]; intros _.
+    apply cpres_bind; [apply cpres_get_node|]. intros n. apply cpres_if; [apply cpres_fail|].
+    apply cpres_bind; [apply cpres_stat_node|]. intros st. apply cpres_if; [apply cpres_fail|apply cpres_ret].
+  - apply cpres_bind; [apply cpres_walk|]; intros _. apply cpres_bind; [apply cpres_open_ro|]. intros r.
+    apply cpres_same. intros s. destruct (real_tree s r) as [[]|]; reflexivity.
+  - apply cpres_bind; [apply cpres_walk|]; intros _. apply cpres_bind; [apply cpres_node_checked|]; intros _.
+    apply cpres_bind; [apply cpres_first_tree|]. intros rt. destruct (snd rt); try apply cpres_fail. apply cpres_ret.
+  - destruct fl; cbn [of_readonly negb] in Hro; try discriminate.
+    apply cpres_bind; [apply cpres_walk|]; intros _. apply cpres_bind; [apply cpres_open_ro|]. intros r. apply cpres_ret.
+  - apply cpres_bind; [apply cpres_walk|]; intros _. apply cpres_bind; [apply cpres_node_checked|]; intros _.
+    apply cpres_bind; [apply cpres_first_tree|]. intros rt. destruct (afind k (xs_of (snd rt))); [apply cpres_ret|apply cpres_fail].
+  - apply cpres_bind; [apply cpres_walk|]; intros _. apply cpres_bind; [apply cpres_node_checked|]; intros _.
+    apply cpres_bind; [apply cpres_first_tree|]. intros rt. apply cpres_ret.
+Qed.
+Lemma cpres_mkdir p mode : cpres (step (OMkdir p mode)).
+Proof.
+  cbn [step]. apply cpres_with_parent. intros pp nm.
+  apply cpres_bind; [apply cpres_sync_parent|]. intros _.
+  apply cpres_bind; [apply cpres_do_mkdir|]. intros _. apply cpres_entry_of.
+Qed.
+
+(* the operations for which preservation of the coherence invariant is proved *)
+Definition coh_op (o : op) : bool :=
+  match o with
+  | OMkdir _ _ => true
+  | _ => readonly_op o
+  end.
+Theorem coherent_step o s : coh_op o = true -> Coherent s -> Coherent (run_op o s).
+Proof.
+  intros Ho HC. unfold run_op. destruct o; cbn [coh_op] in Ho; try (apply cpres_readonly; assumption).
+  apply cpres_mkdir. exact HC.
+Qed.
+Definition coh_history (ops : list (bool * op)) : bool := forallb (fun o => coh_op (snd o)) ops.
+Theorem coherent_history ops : coh_history ops = true -> forall s, Coherent s -> Coherent (run_dumps ops s).
+Proof.
+  induction ops as [|[d o] ops IH]; intros Hh s HC; cbn [run_dumps]; [exact HC|].
+  cbn [coh_history forallb snd] in Hh. apply andb_prop in Hh. destruct Hh as [Ho Hr].
+  apply IH; [exact Hr|]. destruct d; [apply load_all_coherent|]; apply coherent_step; assumption.
+Qed.
+(* restart equivalence for all layer contents and all histories over those operations *)
+Theorem restart_coherent_history u ls nx ops : Forall layer_ok (u :: ls) -> coh_history ops = true ->
+  let s := run_dumps ops (load_all (fresh (Some u) ls nx)) in
+  oteq (view (load_all (restart s))) (view (load_all s)).
+Proof.
+  intros Hok Hh. cbv zeta. apply coherent_restart. apply coherent_history; [exact Hh|].
+  apply load_all_coherent. apply fresh_coherent. exact Hok.
+Qed.
+
+(* ------------------------------------------------------------------ do_mknod / do_create / do_symlink *)
+(* what the creating primitive does on the upper layer, for a parent backed by layer 0 at pp *)
+Definition mk_spec (pp : path) (nm : name) (mk : real -> M real) (cleaf : state -> tree) : Prop :=
+  forall pr s U, r_upper pr = true -> r_layer pr = 0%nat -> r_path pr = pp -> upper s = Some U ->
+    (is_dirT (cleaf s) = false /\ is_whT (cleaf s) = false /\ wf (cleaf s) /\ (forall k r, tget (cleaf s) (k :: r) = None)) /\
+    match h_insert pp nm (cleaf s) U with
+    | Ok U1 => exists s1, mk pr s = (Ok (mkReal 0 true (pp ++ [nm]) false false false), s1) /\
+                          upper s1 = Some U1 /\ lowers s1 = lowers s /\ root s1 = root s
+    | Err _ => exists e s1, mk pr s = (Err e, s1) /\ upper s1 = upper s /\ lowers s1 = lowers s /\ root s1 = root s
+    end.
+Lemma mk_spec_create pp nm mode : mk_spec pp nm (fun pr => ri_create pr nm mode) (fun s => File (next_ino s) (N.land mode 4095) [] []).
+Proof.
+  intros pr s U Hu Hl Hp HU. split; [repeat split; constructor|].
+  unfold ri_create, ri_guard. rewrite Hu, Hl, Hp. unfold bind at 1. cbn [ret]. unfold bind at 1. unfold fresh_ino. unfold bind at 1.
+  unfold mutate. cbn [get_layer upper]. unfold h_create.
+  destruct (h_insert pp nm (File (next_ino s) (N.land mode 4095) [] []) U) as [U1|e] eqn:Ei.
+  - eexists. rewrite HU, Ei. split; [reflexivity|]. unfold set_layer; cbn. rewrite HU. auto.
+  - eexists. eexists. rewrite HU, Ei. split; [reflexivity|]. cbn. auto.
+Qed.
+Lemma mk_spec_symlink pp nm tg : mk_spec pp nm (fun pr => ri_symlink pr nm tg) (fun _ => Lnk tg).
+Proof.
+  intros pr s U Hu Hl Hp HU. split; [repeat split; constructor|].
+  unfold ri_symlink, ri_guard. rewrite Hu, Hl, Hp. unfold bind at 1. cbn [ret]. unfold bind at 1.
+  unfold mutate. cbn [get_layer upper]. unfold h_symlink.
+  destruct (h_insert pp nm (Lnk tg) U) as [U1|e] eqn:Ei.
+  - eexists. rewrite HU, Ei. split; [reflexivity|]. unfold set_layer; cbn. rewrite HU. auto.
+  - eexists. eexists. rewrite HU, Ei. split; [reflexivity|]. cbn. auto.
+Qed.
+
+Definition make_tail (pp : path) (nm : name) (mk : real -> M real) (pr : real) (delw : bool) (existing : bool) : M unit :=
+  if existing then
+    (if delw then delete_whiteout_ignored pr nm else ret tt);;; ri <- mk pr;; mod_node (pp ++ [nm]) (add_upper ri true)
+  else ri <- mk pr;; insert_child pp nm (new_node ri).
+
+Lemma make_tail_coherent s2 (pp : path) (nm : name) mk cleaf pr prs pn2 u2 m x ch rest delw existing r s' :
+  mk_spec pp nm mk cleaf ->
+  Coherent s2 -> upper s2 = Some u2 -> tget u2 pp = Some (Dir m x ch) ->
+  nget pp (root s2) = Some pn2 -> n_reals pn2 = pr :: prs -> r_upper pr = true -> r_layer pr = 0%nat -> r_path pr = pp ->
+  n_loaded pn2 = true -> lstack (shp s2) (List.length (lowers s2)) pp = 0%nat :: rest ->
+  (if existing then exists c, afind nm (n_ch pn2) = Some c /\ n_loaded c = false /\ n_ch c = [] else afind nm (n_ch pn2) = None) ->
+  match afind nm ch with
+  | Some Wh => delw = true /\ existing = true
+  | None => delw = false \/ existing = false
+  | _ => False
+  end ->
+  make_tail pp nm mk pr delw existing s2 = (r, s') -> Coherent s'.
+Proof.
+  intros MK HC2 Hu2 Etg Hg2 Epr Hpu Hl0 Hpp Hld2 Hstk Hex Hcase Hrun.
+  pose proof HC2 as (_ & Hwl2 & HCT2).
+  set (delw' := if existing then delw else false).
+  set (Ua := if delw' then tupd pp (dir_del nm) u2 else u2).
+  set (chA := if delw' then adel nm ch else ch).
+  assert (Hs3 : exists s3, (if delw' then delete_whiteout_ignored pr nm else ret tt) s2 = (Ok tt, s3) /\
+                 upper s3 = Some Ua /\ lowers s3 = lowers s2 /\ root s3 = root s2 /\ next_ino s3 = next_ino s2 /\
+                 tget Ua pp = Some (Dir m x chA) /\ afind nm chA = None).
+  { unfold chA, Ua, delw'. destruct (afind nm ch) as [[| | |]|] eqn:Enm; try contradiction.
+    - destruct Hcase as [-> ->]. eexists. split; [|split; [|split; [|split; [|split; [|split]]]]].
+      + unfold delete_whiteout_ignored, ignore. rewrite Hl0, Hpp.
+        rewrite (mutate0_ok (h_delete_whiteout pp nm) s2 u2 (tupd pp (dir_del nm) u2) Hu2); [reflexivity|].
+        unfold h_delete_whiteout. rewrite (tget_snoc u2 pp nm), Etg, Enm. unfold h_unlink. rewrite Etg, Enm. reflexivity.
+      + apply (upper_set_layer _ u2). exact Hu2.
+      + reflexivity.
+      + reflexivity.
+      + reflexivity.
+      + rewrite tget_tupd, Etg. reflexivity.
+      + rewrite afind_adel, String.eqb_refl. reflexivity.
+    - assert (E : (if existing then delw else false) = false) by (destruct Hcase as [->| ->]; destruct existing; reflexivity).
+      rewrite E. exists s2. cbn [ret]. repeat split; auto. }
+  destruct Hs3 as (s3 & E3 & Hu3 & Hl3 & Hr3 & Hn3 & Etg3 & Enm3).
+  destruct (MK pr s3 Ua Hpu Hl0 Hpp Hu3) as ((Cd & Cw & Cwf & Cleaf) & Hmk).
+  unfold h_insert in Hmk. rewrite Etg3, Enm3 in Hmk. destruct Hmk as (s4 & E4 & Hu4 & Hl4 & Hr4).
+  set (c := cleaf s3) in *. set (ri := mkReal 0 true (pp ++ [nm]) false false false) in *.
+  set (G := fun l : list (name * tree) => aset nm c ((if delw' then adel nm else (fun y => y)) l)).
+  assert (HUc : tupd pp (dir_ins nm c) Ua = tupd pp (chmap G) u2).
+  { unfold Ua, G. destruct delw'; rewrite ?tupd_tupd; apply tupd_ext; intros d; destruct d; reflexivity. }
+  assert (HG1 : forall k, k <> nm -> afind k (G ch) = afind k ch).
+  { intros k Hk. apply String.eqb_neq in Hk. unfold G. destruct delw'; rewrite afind_aset, Hk, ?afind_adel, ?Hk; reflexivity. }
+  assert (HG2 : afind nm (G ch) = Some c) by (unfold G; rewrite afind_aset, String.eqb_refl; reflexivity).
+  assert (Hfin : forall g, (n_reals (g pn2) = n_reals pn2 /\ n_wh (g pn2) = n_wh pn2 /\ n_loaded (g pn2) = n_loaded pn2 /\
+                    NoDup (map fst (n_ch (g pn2))) /\ afind nm (n_ch (g pn2)) = Some (Node [ri] (r_wh ri) false []) /\
+                    (forall k, k <> nm -> afind k (n_ch (g pn2)) = afind k (n_ch pn2))) ->
+                 forall n5 l5, Coherent (mkState (upper s4) (lowers s4) (nupd pp g (root s4)) n5 l5)).
+  { intros g Hg n5 l5.
+    apply (leaf_block s2 _ u2 pp nm G c pn2 rest m x ch ri).
+    - exact HC2.
+    - exact Hu2.
+    - exact Etg.
+    - exact HG1.
+    - exact HG2.
+    - exact Cleaf.
+    - cbn [upper]. rewrite Hu4, HUc. reflexivity.
+    - cbn [lowers]. congruence.
+    - apply (wf_layers_set_upper s2 _ (tupd pp (chmap G) u2) Hwl2); cbn [upper lowers]; [rewrite Hu4, HUc; reflexivity|congruence|].
+      apply layer_ok_tupd.
+      + intros d Hd. destruct d; try exact Hd. inversion Hd as [? ? ? Hn Hall| | |]; subst. cbn [chmap]. unfold G. constructor.
+        * apply keys_aset. destruct delw'; [apply keys_adel_nodup|]; exact Hn.
+        * apply Forall_aset; [destruct delw'; [apply Forall_adel|]; exact Hall|exact Cwf].
+      + intros d Hd. destruct d; try discriminate. reflexivity.
+      + apply (Hwl2 0%nat u2). cbn. exact Hu2.
+    - exact Hg2.
+    - exact Hld2.
+    - exact Hstk.
+    - cbn [r_layer r_upper r_path r_wh r_dir r_opq ri]. rewrite Cd, Cw. repeat split; auto. discriminate.
+    - left. exact Cd.
+    - exists g. split; [cbn [root]; rewrite Hr4, Hr3; reflexivity|exact Hg]. }
+  pose proof (HCT2 pp pn2 Hg2) as Npn2. cbn [app] in Npn2.
+  unfold make_tail in Hrun. destruct existing.
+  - destruct Hex as (c0 & Hc0 & Hul & Hnc).
+    unfold bind at 1 in Hrun. change (if delw then delete_whiteout_ignored pr nm else ret tt) with (if delw' then delete_whiteout_ignored pr nm else ret tt) in Hrun.
+    rewrite E3 in Hrun. unfold bind at 1 in Hrun. rewrite E4 in Hrun. unfold mod_node in Hrun. inversion Hrun; subst r s'; clear Hrun.
+    rewrite nupd_app. apply Hfin. cbn [n_reals n_wh n_loaded n_ch]. repeat split; auto.
+    + rewrite keys_amap. apply Npn2.
+    + rewrite afind_amap, Hc0. cbn [option_map]. unfold add_upper. rewrite Hul, Hnc. reflexivity.
+    + intros k Hk. apply String.eqb_neq in Hk. rewrite String.eqb_sym in Hk. apply (afind_amap_other _ _ _ _ Hk).
+  - unfold bind at 1 in Hrun. assert (s3 = s2) by (unfold delw' in E3; cbn [ret] in E3; inversion E3; reflexivity). subst s3.
+    rewrite E4 in Hrun. unfold insert_child, mod_node in Hrun. inversion Hrun; subst r s'; clear Hrun.
+    apply (Hfin (set_child nm (new_node ri))). unfold set_child; cbn [n_reals n_wh n_loaded n_ch]. repeat split; auto.
+    + apply keys_aset. apply Npn2.
+    + rewrite afind_aset, String.eqb_refl. reflexivity.
+    + intros k Hk. rewrite afind_aset. apply String.eqb_neq in Hk. rewrite Hk. reflexivity.
 Qed.
